@@ -35,7 +35,7 @@ pub fn profile_of(name: &str) -> Profile {
 pub fn prog(rng: &mut Rng, count: u64, profile: &str, emit: Emit) {
     for _ in 0..count {
         let g = proggen::program(rng, profile_of(profile));
-        let text = proggen::render_program(&g.stmts);
+        let text = if rng.chance(1, 3) { proggen::render_program_decorated(rng, &g.stmts) } else { proggen::render_program(&g.stmts) };
         let repeats: u32 = std::env::var("VERIF_REPEATS").ok().and_then(|x| x.parse().ok()).unwrap_or(4);
         let out = run_program_rep(&text, g.cycles, &g.mem, &format!("(tags {}) (text {})", g.tags.join(" "), sexp_escape(&text)), repeats);
         match out.request {
@@ -727,7 +727,7 @@ pub fn diag(rng: &mut Rng, count: u64, emit: Emit) {
         };
         let base: [&str; 10] = ["wire a : 8;", "a = 1;", "wire b : 4;", "b = 2;", "pc = 0;", "Stat = STAT_AOK;", "wire c : 8;", "c = a;",
             "register fD { k : 8 = 0; }", "f_k = D_k;"];
-        let kind = rng.below(22);
+        let kind = rng.below(23);
         let indent: String = " ".repeat(rng.below(5) as usize);
         let lead: &str = *rng.pick(&["", "", "a = 1; ", "/* c */ "][..]);
         // (fault line, column of the offending span within the line, its length, kind name, line replaced or inserted)
@@ -751,6 +751,7 @@ pub fn diag(rng: &mut Rng, count: u64, emit: Emit) {
             17 => { let l = format!("{}c = (b == a);", indent); (l, indent.len() + 5, 1, "compare-width-mismatch", Some("c = a;")) }
             18 => { let l = format!("{}c = (a ..\n{}       0xA5)[0..8];", indent, indent); (l, indent.len() * 2 + 17, 4, "concat-second-line", Some("c = a;")) }
             9 => { let l = format!("{}zz = 1;", indent); (l, indent.len(), 2, "undeclared-assigned", None) }
+            22 => { let l = format!("{}c = a .. b;", indent); (l, indent.len() + 6, 2, "unexpected-dotdot", Some("c = a;")) }
             // a second bank with the same input letter declares a register of the same name: both declarations are shown
             20 | 21 => { let l = format!("{}register fE {{ k : 8 = 0; }}", indent); (l, indent.len() + 14, 9, "dup-register", None) }
             _ => { let l = format!("{}c = a[4..2];", indent); (l, indent.len() + 4, 7, "bad-slice", Some("c = a;")) }
@@ -832,7 +833,7 @@ pub fn anytext(rng: &mut Rng, count: u64, emit: Emit) {
     let toks: [&str; 43] = ["wire", "const", "register", "in", "x", "pc", "Stat", "=", "==", ";", ":", ",", "(", ")", "[", "]", "{", "}", "..",
         "+", "-", "*", "/", "&&", "||", "!", "~", "<", ">>", "0", "1", "0b101", "0x1f", "8", "é", "€", "/*", "*/", "#", "\"", "\u{b2}", "\u{663}", "\u{bd}"];
     for _ in 0..count {
-        let mode = rng.below(12);
+        let mode = rng.below(13);
         let mut bytes: Vec<u8> = if mode == 0 { random_text(rng).into_bytes() } else if mode == 8 {
             // a half-wired built-in component whose enable signal is a constant expression of any kind
             let nasty: [&str; 16] = ["0b11[3..1]", "1/0", "[0:1]", "0b11 && 1", "(0xffffffffffffffffffffffffffffffff .. 0b1)", "[1 : 0x100; 0 : 0b1]",
@@ -897,6 +898,21 @@ pub fn anytext(rng: &mut Rng, count: u64, emit: Emit) {
                 9 => { how = String::from("fault-injected"); }
                 10 => { how = String::from("huge-slice-bounds"); }
                 11 => { how = String::from("case-expression-shapes"); }
+                12 => {
+                    // a forgotten semicolon at the end of a line, followed by a comment (or a blank) that ends in a character of
+                    // more than one byte: the error is at the first token of the next line
+                    let text = String::from_utf8_lossy(&bytes).into_owned();
+                    let mut lines: Vec<String> = text.split('\n').map(|l| l.to_string()).collect();
+                    let cands: Vec<usize> = (0..lines.len()).filter(|i| lines[*i].trim_end().ends_with(';') && *i + 1 < lines.len()).collect();
+                    if !cands.is_empty() {
+                        let i = *rng.pick(&cands[..]);
+                        let cut = lines[i].trim_end().len() - 1;
+                        lines[i].truncate(cut);
+                        lines[i].push_str(*rng.pick(&[" # aqu\u{ed}", " // fin de l\u{ed}nea \u{2014}", " /* \u{3b1} */ \u{a0}", "\u{a0}", " # \u{65e5}\u{672c}", " #\u{e9}"][..]));
+                    }
+                    bytes = lines.join("\n").into_bytes();
+                    how = String::from("missing-semicolon-before-non-ascii");
+                }
                 1 => { let cut = rng.below(bytes.len() as u64 + 1) as usize; bytes.truncate(cut); how = String::from("truncated"); }
                 2 | 3 | 4 => {
                     // edit at a blank: insert, delete or substitute one token
